@@ -26,6 +26,23 @@ def run(chk):
                 j.flags = sorted(set(j.flags) | set(fl))
                 extra.append(j)
         jobs += extra
+    # the element-size limit applies to the initial stack a spend takes from its witness, in witness v0 and in tapscript alike
+    import c05, gen_spend, btc
+    rng = chk.rng
+    O = G.OP
+    ws = bytes([O["SIZE"], O["NIP"]])
+    for ln in (519, 520, 521, 600):
+        for extra in ([], [b"\x01"]):
+            for m in (0, 2):
+                spk_, sc_, ctrl_ = c05.build(rng, m, ["rnd"], script=ws + bytes([O["NIP"]]) * len(extra))
+                j = c05.mkjob(rng, "x", spk_, sc_, ctrl_, args=extra + [b"\x11" * ln])
+                jobs.append(SessionJob("wit:tapscript:%d:%d:m%d" % (ln, len(extra), m), b"", [], drivers.STANDARD, "BASE", cmds=["steps"], cmp=gen_spend.CMP_SPEND, auto=True, txctx=j.txctx))
+            c = gen_spend.SpendCase(rng, "p2wsh", "valid", 1, 0, 0)
+            wsc = ws + bytes([O["NIP"]]) * len(extra)
+            c.funding.vout[0] = btc.TxOut(c.funding.vout[0].amount, btc.p2wsh(wsc)[0]); c.tx.vin[0].prev_txid = c.funding.txid()
+            c.tx.witness[0] = extra + [b"\x11" * ln, wsc]
+            jobs.append(SessionJob("wit:p2wsh:%d:%d" % (ln, len(extra)), b"", [], drivers.STANDARD, "BASE", cmds=["steps"], cmp=gen_spend.CMP_SPEND, auto=True,
+                                   txctx={"tx": c.tx.hex(), "txin": c.funding.hex(), "select": -1}))
     jobs += c01.probes(chk)
     divs = chk.validate("Trace_Session", jobs, "c10")
     chk.classify(divs)
